@@ -97,3 +97,39 @@ Lemma shipped_spheres :
 Proof.
   split; eexists _, _, _; (split; [unfold C16_body_VENUS_R, C16_body_PLUTO_R; reflexivity|split; lra]).
 Qed.
+
+(* ---- statements (this file replaces C16_refuted.v on a repaired tree, so it carries its own) ---- *)
+(* f = 0: exactly the rotating-sphere values; they satisfy Pizzetti with b = a, are positive for m0 < 0.05, and
+   normal gravity is ge cos^2 + gp sin^2 times the height factor *)
+Theorem C16_sphere_branch : forall a GM w lat h, 0 < a -> 0 < GM -> w*w*(a*a*a)/GM < 1/20 ->
+  let m0 := w*w*(a*a*a)/GM in let ge := GM*(1 - 3*m0/2)/(a*a) in let gp := GM*(1 + m0)/(a*a) in
+  C16_ge_R a 0 GM w = Val [ge] /\ C16_gp_R a 0 GM w = Val [gp] /\
+  2*ge/a + gp/a = 3*GM/(a*a*a) - 2*(w*w) /\ 0 < ge /\ 0 < gp /\
+  C16_g_R a 0 GM w lat h = Val [(ge * (1 - (sin (lat * (1/180*PI)))^2) + gp * (sin (lat * (1/180*PI)))^2)
+                                * (1 - 2*h*(1 + 0 + m0 - 2*0*(sin (lat * (1/180*PI)))^2)/a + 3*(h*h)/(a*a))] /\
+  C16_U0_R a 0 GM w = Val [GM/a + w*w*(a*a)/3] /\
+  exists c20, C16_J2_R a 0 GM w = Val [- m0 / 3; c20].
+Proof.
+  intros a GM w lat h Ha HG Hm. cbv zeta.
+  destruct (sphere_exact a GM w Ha HG) as [S1 S2]. destruct (sphere_positive a GM w Ha HG Hm) as [P1 P2].
+  destruct (sphere_U0_J2 a GM w Ha HG) as [U J].
+  split; [exact S1|]. split; [exact S2|]. split; [exact (sphere_pizzetti a GM w Ha HG)|].
+  split; [exact P1|]. split; [exact P2|]. split; [exact (sphere_g a GM w lat h Ha HG Hm)|]. split; [exact U|exact J].
+Qed.
+Print Assumptions C16_sphere_branch.
+
+(* continuity across f -> 0: for f in [1e-6, 0.2] the values are within O(f) of the values returned AT f = 0 *)
+Theorem C16_continuity_at_zero : forall a f GM w, 0 < a -> 1/1000000 <= f <= 1/5 -> 0 < GM -> w*w*(a*a*a)/GM <= 1/16 ->
+  exists ge gp ge0 gp0,
+    C16_ge_R a f GM w = Val [ge] /\ C16_gp_R a f GM w = Val [gp] /\
+    C16_ge_R a 0 GM w = Val [ge0] /\ C16_gp_R a 0 GM w = Val [gp0] /\
+    Rabs (ge - ge0) <= 13/10 * f * (GM/(a*a)) /\ Rabs (gp - gp0) <= 3 * (w*w*(a*a*a)/GM) * f * (GM/(a*a)).
+Proof. intros a f GM w Ha Hf HG Hm. apply continuity_at_zero; [unfold dom; tauto|exact Hm]. Qed.
+Print Assumptions C16_continuity_at_zero.
+
+(* Venus and Pluto of the shipped table (equal radii, f = 0): gravity near GM/a^2 = 8.8703, 0.61588 *)
+Theorem C16_shipped_spheres :
+  (exists m ge gp, C16_body_VENUS_R = Val [0; m; ge; gp] /\ 887/100 < ge < 8871/1000 /\ 887/100 < gp < 8871/1000) /\
+  (exists m ge gp, C16_body_PLUTO_R = Val [0; m; ge; gp] /\ 6156/10000 < ge < 6159/10000 /\ 6158/10000 < gp < 6161/10000).
+Proof. exact shipped_spheres. Qed.
+Print Assumptions C16_shipped_spheres.
